@@ -87,7 +87,7 @@ def calls(t, sd):
     add("wrong_txn_type", [TX("pay", "axfer")])
     add("wrong_second", [A(U64), W(BOOL, U8)])
     if t != "quick":
-        for j in range(30):
+        for j in range(400):
             n = rng.choice([1, 2, 3, 4, 6])
             args = []
             for _ in range(n):
